@@ -148,6 +148,7 @@ func suiteSerde(rn *runner, r *rng, tier string) {
 		c.tc.class = fmt.Sprintf("nd=%v/m=%d>%d/reuse=%d/edits=%d/%s", nd, m1, m2, reuseKind, nEdits, sizeClass(len(text)))
 		rn.addPrepared(c.tc)
 	}
+	compareNoasm(rn, "serde")
 	rn.rep.Rule = "parse (+0-3 edits), Serialize in mode m1, Deserialize by a serializer in mode m2 (fresh or reused serializers and destination); expectations from the reference tree; every 12th case reuses one serializer for two documents built so that a string and a longer string with the same prefix collide in the de-duplication table while the first document left the rest of the longer one behind in the buffer; distinct = (nd, modes, reuse, edits, size)"
 }
 
@@ -408,6 +409,7 @@ func suiteBlob(rn *runner, r *rng, tier string) {
 			}
 		}
 	}
+	compareNoasm(rn, "blob")
 	rn.rep.Rule = "random and mutated tag/value sections behind intact framing, mutated/truncated uncompressed blobs, random bytes; each accepted result is walked, marshalled and looked up; distinct = (generator, outcome, well-formedness)"
 }
 
